@@ -458,5 +458,5 @@ META = {
     "a directory listing is read before the directory is listed (helpers expanded).",
     "note": "Decides the listed structural clauses, not the behaviour. chmod-only changes and read-once directories "
     "remain stale by construction of an mtime-keyed cache: not decided here.",
-    "more": 'Also decided: no lexical path normalisation (abspath/normpath) anywhere on the launch path: `link/..` is never collapsed without asking the file system. In every view a command is an executable regular file: the executable test skips its own file check only where the path is already known to be a file, and every listed name passed the test.',
+    "more": 'Also decided: no lexical path normalisation (abspath/normpath) anywhere on the launch path: `link/..` is never collapsed without asking the file system. In every view a command is an executable regular file: the executable test skips its own file check only where the path is already known to be a file, and every listed name passed the test. Every \'yes\' of the POSIX executable test is os.access(path, X_OK), the test execvp applies for this process (no answer from mode bits).',
 }
